@@ -693,6 +693,13 @@ class Interp:
         if isinstance(f, Closure):
             key = (f.mod.name, getattr(f.node, "_qualname", f.name))
             if key in self.hooks:
+                # a model that stands for a repository function sees its arguments by position, however the caller spelled them
+                # (keywords, functools.partial): keyword arguments are moved into their positional slots as far as those are contiguous
+                if kwargs and not isinstance(f.node, ast.Lambda):
+                    params = [p_.arg for p_ in getattr(f.node.args, "posonlyargs", [])] + [p_.arg for p_ in f.node.args.args]
+                    args, kwargs = list(args), dict(kwargs)
+                    while len(args) < len(params) and params[len(args)] in kwargs:
+                        args.append(kwargs.pop(params[len(args)]))
                 return self.hooks[key](self, args, kwargs)
             if _is_memoised(f.node):
                 # functools.lru_cache / cache: one result per argument tuple (objects by identity), for the life of the process
